@@ -126,7 +126,32 @@ static void z_big_constant(void) {
   lp_upolynomial_delete(f); lp_upolynomial_delete(g); lp_upolynomial_delete(h);
 }
 
+/* single-term polynomials c*x^k (k = 0: a constant): the content is the whole coefficient, sign included */
+static void z_monomial(void) {
+  long c[6] = {0}; unsigned k = rnd(5);
+  c[k] = chance(60) ? -(long)(1 + rnd(12)) : (long)(1 + rnd(12));
+  lp_upolynomial_t* f = lp_upolynomial_construct_from_long(lp_Z, k, c);
+  long cx[2] = { 0, 1 };
+  lp_upolynomial_t* x = lp_upolynomial_construct_from_long(lp_Z, 1, cx);
+  int full = chance(60);
+  if (full) {
+    sb_begin("fac", "ufull"); sb_str(" Z "); sb_upoly(f); sb_sp(); sb_long(k ? 1 : 0);
+    if (k) { sb_sp(); sb_upoly(x); sb_sp(); sb_long((long)k); }
+    sb_arrow();
+    lp_upolynomial_factors_t* fs = lp_upolynomial_factor(f);
+    emit_factors(fs); sb_emit();
+    lp_upolynomial_factors_destruct(fs, 1);
+  } else {
+    sb_begin("fac", "usqf"); sb_str(" Z "); sb_upoly(f); sb_arrow();
+    lp_upolynomial_factors_t* fs = lp_upolynomial_factor_square_free(f);
+    emit_factors(fs); sb_emit();
+    lp_upolynomial_factors_destruct(fs, 1);
+  }
+  lp_upolynomial_delete(f); lp_upolynomial_delete(x);
+}
+
 static void z_case(void) {
+  if (chance(6)) { z_monomial(); return; }
   if (chance(22)) { z_random_pair(); return; }
   if (chance(10)) { z_big_constant(); return; }
   /* product of blocks with multiplicities, times a content */
